@@ -492,6 +492,23 @@ func (x *fnCtx) evalSpecCall(env *specEnv, e *SExpr) *Val {
 	case "deref":
 		p := ev(0)
 		return x.loadH(env.heap, x.addrOf(p))
+	case "forallp", "forallps":
+		srt := SInt
+		var vt types.Type = tInt
+		if name == "forallps" {
+			srt = SStr
+			vt = tString
+		}
+		bv := BVar(args[0].Op, srt)
+		n := *env
+		n.bound = map[string]*Val{}
+		for k, v := range env.bound {
+			n.bound[k] = v
+		}
+		n.bound[args[0].Op] = scalar(vt, bv)
+		pat := x.evalSpec(&n, args[1]).L[0]
+		body := x.evalSpecBool(&n, args[2])
+		return scalar(tBool, Forall([]*Term{bv}, body, pat))
 	case "forall", "exists", "foralls", "existss":
 		if args[0].Kind != "ident" {
 			x.fail("spec: %s needs a variable name", name)
@@ -511,7 +528,18 @@ func (x *fnCtx) evalSpecCall(env *specEnv, e *SExpr) *Val {
 		n.bound[args[0].Op] = scalar(vt, bv)
 		body := x.evalSpecBool(&n, args[len(args)-1])
 		if strings.HasPrefix(name, "forall") {
-			return scalar(tBool, Forall([]*Term{bv}, body, autoPatterns(bv, body)...))
+			pats := autoPatterns(bv, body)
+			if len(pats) == 0 && srt == SInt {
+				// indices of the form (T + k): re-index the quantifier over j = T + k
+				if off := findOffsetIndex(bv, body); off != nil {
+					j := BVar(args[0].Op+"j", SInt)
+					body2 := Subst(body, map[*Term]*Term{bv: Sub(j, off)})
+					if p2 := autoPatterns(j, body2); len(p2) > 0 {
+						return scalar(tBool, Forall([]*Term{j}, body2, p2...))
+					}
+				}
+			}
+			return scalar(tBool, Forall([]*Term{bv}, body, pats...))
 		}
 		return scalar(tBool, Exists([]*Term{bv}, body))
 	case "has":
@@ -539,6 +567,8 @@ func (x *fnCtx) evalSpecCall(env *specEnv, e *SExpr) *Val {
 		return scalar(tBool, SHasPrefix(ev(0).L[0], ev(1).L[0]))
 	case "hassuffix":
 		return scalar(tBool, SHasSuffix(ev(0).L[0], ev(1).L[0]))
+	case "pathdir":
+		return scalar(tString, App("fn.path/filepath.Dir", SStr, ev(0).L[0]))
 	case "sbyte":
 		return scalar(tString, SByte(ev(0).L[0]))
 	case "srune":
@@ -556,7 +586,18 @@ func (x *fnCtx) evalSpecCall(env *specEnv, e *SExpr) *Val {
 	case "as":
 		a := ev(0)
 		t := x.findNamedType(args[1].Op)
-		return &Val{T: t, L: []*Term{a.IVal()}}
+		ls := layout(t)
+		if len(ls) == 1 && ls[0].Sort == SInt {
+			return &Val{T: t, L: []*Term{a.IVal()}}
+		}
+		if len(ls) == 1 && ls[0].Sort == SStr {
+			return &Val{T: t, L: []*Term{App("unbox.Str", SStr, a.IVal())}}
+		}
+		out := &Val{T: t}
+		for _, l := range ls {
+			out.L = append(out.L, Select(hget(env.heap, "B:"+typeStr(t)+l.Suffix, ArrSort(SInt, l.Sort)), a.IVal()))
+		}
+		return out
 	case "ite":
 		c := x.evalSpecBool(env, args[0])
 		a, b := ev(1), ev(2)
@@ -638,6 +679,38 @@ func (x *fnCtx) evalSpecCall(env *specEnv, e *SExpr) *Val {
 	}
 	x.fail("spec: unknown function %s", name)
 	return nil
+}
+
+// findOffsetIndex finds T in an index expression (T + bv) used by a select/application.
+func findOffsetIndex(bv *Term, body *Term) *Term {
+	var found *Term
+	seen := map[*Term]bool{}
+	var rec func(t *Term)
+	rec = func(t *Term) {
+		if seen[t] || !t.hasBV || found != nil {
+			return
+		}
+		seen[t] = true
+		if t.Kind == KApp || (t.Kind == KBuiltin && t.Op == "select") {
+			for _, a := range t.Args {
+				if a.Kind == KBuiltin && a.Op == "+" && len(a.Args) == 2 {
+					if a.Args[1] == bv && !a.Args[0].hasBV {
+						found = a.Args[0]
+						return
+					}
+					if a.Args[0] == bv && !a.Args[1].hasBV {
+						found = a.Args[1]
+						return
+					}
+				}
+			}
+		}
+		for _, a := range t.Args {
+			rec(a)
+		}
+	}
+	rec(body)
+	return found
 }
 
 // autoPatterns picks trigger terms for a quantified body: applications / selects that
